@@ -84,6 +84,14 @@ class Sched:
         self.forced += 1
         if self.forced > 10000:
             raise Deadlock("lock never released")
+        # logical deadlock: every unfinished thread has come here - twice in a row for this one - without anybody passing a yield
+        # point or finishing in between
+        ba = self.__dict__.setdefault("_blocked_at", {})
+        mark = (self.step, sum(self.done))
+        again = ba.get(i) == mark
+        ba[i] = mark
+        if again and all(self.done[j] or ba.get(j) == mark for j in range(self.n) if j != i):
+            raise Deadlock("every thread is blocked (on a lock or on waiting for another thread)")
         if not self._switch(i):
             raise Deadlock("blocked with no other runnable thread")
 
